@@ -1513,6 +1513,145 @@ Section Oracle.
     split; [reflexivity|]. split; [exact C2|]. lia.
   Qed.
 
+
+  (* fuel measure of the LZMA2 write loop *)
+  Definition qflag (e : encd) : Z := if read_limit (e_lz e) <=? pidx e - 1 then 0 else 1.
+  Definition wmeasure (e : encd) (len : Z) : Z := 3 * len + (write_pos (e_lz e) - pidx e) + qflag e.
+
+  Lemma qflag_quiet e : quiet e -> qflag e = 0.
+  Proof. unfold quiet, qflag. intros H. destruct (Z.leb_spec (read_limit (e_lz e)) (pidx e - 1)); lia. Qed.
+  Lemma qflag_range e : 0 <= qflag e <= 1.
+  Proof. unfold qflag. destruct (_ <=? _); lia. Qed.
+  Lemma qflag_nquiet e : ~ quiet e -> qflag e = 1.
+  Proof. unfold quiet, qflag. intros H. destruct (Z.leb_spec (read_limit (e_lz e)) (pidx e - 1)); lia. Qed.
+
+  Lemma l2_write_loop_spec p : wf_p p -> l2_hist_ok p -> forall fuel s org len off,
+    l2ok p org s -> 0 <= len <= I32_MAX ->
+    sum_fill (l2_tr _ s) + len <= 4611686018427387904 ->
+    wmeasure (l2_e _ s) len + 1 <= Z.of_nat fuel ->
+    okor (l2_write_loop PS parse chunkc fuel s len off) (fun r =>
+      exists org1, l2ok p org1 (fst r) /\ snd r = off + len /\ l2_chunk _ (fst r) = l2_chunk _ s /\
+        sum_fill (l2_tr _ (fst r)) = sum_fill (l2_tr _ s) + len).
+  Proof.
+    intros W HH. pose proof W as [W1 W2 W3 W4 W5 W6 W7 W8 W9 W10].
+    induction fuel as [|f IH]; intros s org len off Lok Hlen Hbig Hfuel.
+    - exfalso. destruct Lok as (L & _). pose proof (l2i_e _ _ _ L) as I.
+      pose proof (ei_lz _ _ _ _ I) as [[? ?] ? ? ? ?]. pose proof (ei_ra _ _ _ _ I). pose proof (qflag_range (l2_e _ s)).
+      unfold wmeasure, pidx in *. lia.
+    - cbn [l2_write_loop].
+      destruct (Z.leb_spec len 0) as [Hz|Hpos].
+      { cbn [okor fst snd]. exists org. split; [exact Lok|]. repeat split; lia. }
+      (* optional independent restart *)
+      assert (Hs0 : okor (match l2_chunk PS s with
+                          | Some cs => if cs <=? l2_unc PS s then l2_start_independent PS parse chunkc s else Ok s
+                          | None => Ok s end)
+                         (fun s0 => exists org0, l2ok p org0 s0 /\ l2_chunk _ s0 = l2_chunk _ s /\
+                                                 sum_fill (l2_tr _ s0) = sum_fill (l2_tr _ s) /\
+                                                 wmeasure (l2_e _ s0) len <= wmeasure (l2_e _ s) len)).
+      { assert (Hsame : okor (Ok s) (fun s0 => exists org0, l2ok p org0 s0 /\ l2_chunk _ s0 = l2_chunk _ s /\
+                                                 sum_fill (l2_tr _ s0) = sum_fill (l2_tr _ s) /\
+                                                 wmeasure (l2_e _ s0) len <= wmeasure (l2_e _ s) len)).
+        { cbn [okor]. exists org. repeat split; try apply Lok; lia. }
+        destruct (l2_chunk PS s) as [cs|] eqn:Ecs; [|exact Hsame].
+        destruct (cs <=? l2_unc PS s); [|exact Hsame].
+        eapply okor_weaken; [apply (l2_start_independent_spec p org s W HH Lok)|].
+        intros s0 (Lok0 & E0 & C0 & F0). exists (sum_fill (l2_tr _ s0)).
+        split; [exact Lok0|]. split; [congruence|]. split; [exact F0|].
+        rewrite E0. destruct Lok as (L & _). pose proof (l2i_e _ _ _ L) as I.
+        pose proof (ei_lz _ _ _ _ I) as [[? ?] ? ? ? ?]. pose proof (ei_ra _ _ _ _ I). pose proof (qflag_range (l2_e _ s)).
+        assert (Hq0 : qflag enc0 = 0) by reflexivity.
+        assert (Hw0 : write_pos (e_lz enc0) - pidx enc0 = 0) by reflexivity.
+        unfold wmeasure. rewrite Hq0, Hw0. unfold pidx in *. lia. }
+      eapply okor_bind; [exact Hs0|]. clear Hs0.
+      intros s0 (org0 & (L0 & F0 & J1 & J2) & C0 & Fl0 & M0).
+      pose proof L0 as [Lp Ln I Lpend Lunc Lbig Lcnn].
+      rewrite Lp.
+      eapply okor_bind; [apply (fill_step p org0 (l2_e _ s0) (l2_tr _ s0) len W I F0 Hlen)|].
+      intros [[d1 used] tr1]. fold (after_fill (l2_e _ s0) d1).
+      set (e0 := l2_e _ s0) in *. set (e1 := after_fill e0 d1).
+      intros (I1 & F1 & U1 & Lg1 & Un1 & Rc1 & Wn1 & Bw1 & Hprog & Hstuck & Ab1 & Fl1).
+      pose proof (l2_pending_cap p org0 s0 L0) as Hpc. fold e0 in Hpc.
+      pose proof (ei_lz _ _ _ _ I1) as [[Ha1 Hb1] Hc1 [Hd1 He1] [Hf1 Hg1] Hpb1]. pose proof (ei_ra _ _ _ _ I1) as [Hr11 Hr12].
+      pose proof (ei_unc _ _ _ _ I) as Hu0.
+      rewrite as_u32_id by (unfold U32_MAX, I32_MAX in *; lia).
+      rewrite ck_u32_ok by (unfold U32_MAX, I32_MAX, UNC_BOUND, SYM_MAX, LZMA2_UNCOMPRESSED_LIMIT, pidx in *; lia). cbn [obind].
+      assert (Hub1 : unc_size e1 <= UNC_BOUND p) by (rewrite Un1; exact J2).
+      eapply okor_bind; [apply (encode_for_lzma2_spec p org0 (l2_ps _ s0) e1 tr1 W I1 Hub1)|].
+      intros [[[b e2] ps2] tr2] (I2 & U2 & B2 & Y1 & Y1' & Y2 & Y3 & Y4 & Y5 & Y6 & Y9 & Y10 & Y11 & Y8 & YA).
+      assert (Hc1' : loop2_cond e1 = true) by (unfold loop2_cond in *; rewrite Un1, Rc1; exact J1).
+      pose proof (ei_fill _ _ _ _ I2) as Hf2. pose proof (ei_fill _ _ _ _ I1) as Hf1'. pose proof (ei_fill _ _ _ _ I) as Hf0.
+      pose proof (ei_chunk _ _ _ _ I2) as Hch2. pose proof (ei_chunk _ _ _ _ I1) as Hch1. pose proof (ei_chunk _ _ _ _ I) as Hch0.
+      rewrite logical_pidx in Hch2, Hch1, Hch0. rewrite logical_pidx in Lg1. rewrite logical_pidx in Lg1.
+      set (s2 := mkL2 PS p e2 (l2_pending PS s0 + used) (l2_chunk PS s0) (l2_unc PS s0) (l2_new PS s0) ps2 tr2).
+      assert (L2 : l2inv p org0 s2).
+      { constructor; unfold s2; cbn [l2_p l2_new l2_e l2_tr l2_pending l2_unc]; try assumption; try reflexivity; try lia. }
+      (* phi for e2 *)
+      assert (F2 : phi p e2).
+      { destruct F1 as [G1 G2 G3 G4]. constructor.
+        - congruence.
+        - destruct (Z_le_dec (read_limit (e_lz e1)) (pidx e1 - 1)) as [Hq|Hnq].
+          + destruct (Y9 Hq) as (E1 & _ & _). subst e2. exact G2.
+          + assert (NQ : ~ quiet e1) by (unfold quiet; lia).
+            destruct (phi_consult_nopend p org0 e1 tr1 W I1 (mkPhi _ _ G1 G2 G3 G4) NQ) as [Hst _].
+            left. unfold steady in *. rewrite Y2, Y3. exact Hst.
+        - destruct (Z_le_dec (read_limit (e_lz e1)) (pidx e1 - 1)) as [Hq|Hnq].
+          + destruct (Y9 Hq) as (E1 & _ & _). subst e2. exact G3.
+          + assert (NQ : ~ quiet e1) by (unfold quiet; lia).
+            destruct (phi_consult_nopend p org0 e1 tr1 W I1 (mkPhi _ _ G1 G2 G3 G4) NQ) as [Hst Hp0].
+            rewrite (Y8 G1 Hst Hp0). lia.
+        - rewrite Y2, Y3. exact G4. }
+      (* the state after the optional chunk *)
+      assert (Hs3 : okor (if b then write_chunk PS chunkc s2 else Ok s2)
+                         (fun s3 => l2ok p org0 s3 /\ l2_chunk _ s3 = l2_chunk _ s0 /\
+                                    sum_fill (l2_tr _ s3) = sum_fill tr2 /\
+                                    write_pos (e_lz (l2_e _ s3)) = write_pos (e_lz e2) /\
+                                    read_limit (e_lz (l2_e _ s3)) = read_limit (e_lz e2) /\
+                                    pidx e2 <= pidx (l2_e _ s3))).
+      { destruct b.
+        - (* a symbol was coded in this call or before: the chunk is not empty *)
+          assert (Hu2 : 1 <= unc_size e2).
+          { destruct (Z_le_dec (read_limit (e_lz e1)) (pidx e1 - 1)) as [Hq|Hnq].
+            - destruct (Y9 Hq) as (E1 & _ & _). subst e2. rewrite Hc1' in B2. discriminate.
+            - assert (NQ : ~ quiet e1) by (unfold quiet; lia). specialize (Y10 NQ Hc1'). rewrite Un1 in Y6. lia. }
+          eapply okor_weaken; [apply (write_chunk_spec p org0 s2 W HH L2); unfold s2; cbn [l2_e]; lia|].
+          intros s3 (L3 & C3 & E3 & G3 & Un3 & Rc3 & Ra3 & Fl3 & Ch3 & P3).
+          unfold s2 in *. cbn [l2_e l2_tr l2_chunk l2_pending] in *.
+          assert (Hpi : pidx e2 <= pidx (l2_e _ s3)).
+          { unfold pidx. rewrite E3. pose proof (ei_ra _ _ _ _ I2). destruct Ra3 as [R|R]; rewrite R; lia. }
+          split.
+          { split; [exact L3|]. split.
+            - destruct F2 as [G1 G2 G3' G4]. constructor.
+              + rewrite E3. exact G1.
+              + destruct G2 as [Gs|Gq]; [left; unfold steady in *; rewrite E3; exact Gs|right; unfold quiet in *; rewrite E3; lia].
+              + rewrite E3. intros Hp0. destruct Ra3 as [R|R]; [rewrite R; exact (G3' Hp0)|exact R].
+              + rewrite E3. exact G4.
+            - split; [unfold loop2_cond; rewrite Un3, Rc3; reflexivity|].
+              rewrite Un3. unfold UNC_BOUND, SYM_MAX, LZMA2_UNCOMPRESSED_LIMIT. lia. }
+          split; [exact C3|]. split; [exact Fl3|]. rewrite E3. repeat split; try reflexivity; try exact Hpi.
+        - cbn [okor]. unfold s2. cbn [l2_e l2_tr l2_chunk].
+          split.
+          { split; [exact L2|]. split; [exact F2|]. split; [apply Y11; [exact Hc1'|reflexivity]|exact U2]. }
+          repeat split; try reflexivity; try lia. }
+      eapply okor_bind; [exact Hs3|]. clear Hs3.
+      intros s3 (Lok3 & C3 & Fl3 & Wp3 & Rl3 & Pi3).
+      eapply okor_weaken.
+      { apply (IH s3 org0 (len - used) (off + used) Lok3); try lia.
+        (* the measure decreases *)
+        pose proof (qflag_range (l2_e _ s3)). pose proof (qflag_range e0).
+        unfold wmeasure in *. rewrite Wp3, Y2.
+        destruct (Z.eq_dec used 0) as [Hu0'|Hun0].
+        - (* nothing accepted: the encoder was not drained, so it codes at least one symbol *)
+          subst used.
+          assert (NQ0 : ~ quiet e0) by (intros Q; specialize (Hprog Q Hpos); lia).
+          destruct (Hstuck eq_refl Hpos) as [_ Ed1].
+          assert (NQ1 : ~ quiet e1).
+          { unfold quiet, e1, after_fill, pidx in *. cbn [e_lz read_ahead]. rewrite Ed1. exact NQ0. }
+          specialize (Y10 NQ1 Hc1'). rewrite (qflag_nquiet e0 NQ0) in M0. lia.
+        - lia. }
+      intros [s4 off4] (org4 & Lok4 & O4 & C4 & Fl4). cbn [fst snd] in *.
+      exists org4. split; [exact Lok4|]. split; [lia|]. split; [congruence|]. lia.
+  Qed.
+
 End Oracle.
 
 (* =============================================================================================
